@@ -3,10 +3,12 @@ package checks
 import (
 	"fmt"
 	"math/rand"
+	"strings"
 
 	"github.com/opsidian/parsley/parsley"
 	"github.com/opsidian/parsley/text"
 
+	"verifharness/internal/gram"
 	"verifharness/internal/run"
 )
 
@@ -16,7 +18,147 @@ import (
 
 var c11alpha = []string{"a", "b", "\n", "\r", "\r\n", " ", "é", "😀", "\n\n", "\r\r\n", "x"}
 
+// custom parsley.File implementations of the user: value types (FileSet.AddFile takes the interface). c11genFile is a
+// comparable value - two generated chunks with the same name and length are EQUAL Go values -, c11tableFile carries a
+// slice and cannot be compared at all. Neither needs its offset: the set hands Position the offset inside the file.
+type c11genFile struct {
+	name string
+	n    int
+}
+
+func (f c11genFile) Position(off int) parsley.Position {
+	if off < 0 || off > f.n {
+		return parsley.NilPosition
+	}
+	return c11pos(fmt.Sprintf("%s@%d", f.name, off))
+}
+func (f c11genFile) Pos(off int) parsley.Pos { return parsley.Pos(off) }
+func (f c11genFile) Len() int                { return f.n }
+func (f c11genFile) SetOffset(int)           {}
+
+type c11tableFile struct {
+	name  string
+	lines []int
+	n     int
+}
+
+func (f c11tableFile) Position(off int) parsley.Position {
+	if off < 0 || off > f.n {
+		return parsley.NilPosition
+	}
+	return c11pos(fmt.Sprintf("%s@%d", f.name, off))
+}
+func (f c11tableFile) Pos(off int) parsley.Pos { return parsley.Pos(off) }
+func (f c11tableFile) Len() int                { return f.n }
+func (f c11tableFile) SetOffset(int)           {}
+
+type c11pos string
+
+func (p c11pos) String() string { return string(p) }
+
+// c11custom: sets that mix text.File with the user's own File values. Oracle: the same layout rule (base_0 = 1,
+// base_{i+1} = base_i + len_i + 1) whatever the files are; every global position must be handed to the file that owns
+// it with the right offset inside it.
+func c11custom(j run.Job, a *run.Acc) {
+	r := rand.New(rand.NewSource(j.Seed))
+	for it := 0; it < j.N; it++ {
+		k := 2 + r.Intn(6)
+		type ent struct {
+			f    parsley.File
+			n    int
+			want func(off int) string
+		}
+		var ents []ent
+		var descr []string
+		for i := 0; i < k; i++ {
+			switch r.Intn(4) {
+			case 0, 1:
+				var b []byte
+				for n := r.Intn(8); n > 0; n-- {
+					b = append(b, c11alpha[r.Intn(len(c11alpha))]...)
+				}
+				c := specNormalise(b)
+				name := fmt.Sprintf("t%d", i)
+				ents = append(ents, ent{gram.NewFileFrom(name, b), len(c), func(off int) string {
+					l, col := lineCol(string(c), off)
+					return fmt.Sprintf("%s:%d:%d", name, l, col)
+				}})
+				descr = append(descr, fmt.Sprintf("text %q", b))
+			case 2:
+				// generated chunks: few names and lengths, so equal values are common
+				f := c11genFile{[]string{"<generated>", "<macro>"}[r.Intn(2)], r.Intn(4)}
+				ents = append(ents, ent{f, f.n, func(off int) string { return fmt.Sprintf("%s@%d", f.name, off) }})
+				descr = append(descr, fmt.Sprintf("gen %s/%d", f.name, f.n))
+			default:
+				n := r.Intn(5)
+				f := c11tableFile{fmt.Sprintf("<table%d>", r.Intn(2)), []int{0, n}, n}
+				ents = append(ents, ent{f, n, func(off int) string { return fmt.Sprintf("%s@%d", f.name, off) }})
+				descr = append(descr, fmt.Sprintf("table %s/%d", f.name, n))
+			}
+		}
+		if !a.Begin() {
+			continue
+		}
+		a.Count("file sets that mix text.File with the user's own File values", 1)
+		d := map[string]any{"files": descr}
+		var fs *parsley.FileSet
+		pan := func() (p string) {
+			defer func() {
+				if e := recover(); e != nil {
+					p = fmt.Sprint(e)
+				}
+			}()
+			if it%2 == 0 {
+				var fl []parsley.File
+				for _, e := range ents {
+					fl = append(fl, e.f)
+				}
+				fs = parsley.NewFileSet(fl...)
+			} else {
+				fs = parsley.NewFileSet()
+				for _, e := range ents {
+					fs.AddFile(e.f)
+				}
+			}
+			return ""
+		}()
+		if pan != "" {
+			d["panic"] = pan
+			a.Violate("panic", "panic", d)
+			continue
+		}
+		pos := 1
+		ok := true
+		for i, e := range ents {
+			for off := 0; off <= e.n && ok; off++ {
+				got := fs.Position(parsley.Pos(pos + off)).String()
+				a.Count("global positions queried", 1)
+				if want := e.want(off); got != want {
+					d["file_index"], d["global_pos"], d["got"], d["want"] = i, pos+off, got, want
+					a.Violate("FileSet.Position", "FileSet.Position", d)
+					ok = false
+				}
+			}
+			pos += e.n + 1
+		}
+		for p := pos; p < pos+3 && ok; p++ {
+			if got := fs.Position(parsley.Pos(p)).String(); got != "unknown" {
+				d["global_pos"], d["got"], d["want"] = p, got, "unknown"
+				a.Violate("FileSet.Position", "FileSet.Position", d)
+				ok = false
+			}
+		}
+		if ok {
+			a.NonTrivial(strings.Join(descr, "|"))
+		}
+	}
+}
+
 func c11exec(j run.Job, a *run.Acc) {
+	if j.Family == "custom-files" {
+		c11custom(j, a)
+		return
+	}
 	r := rand.New(rand.NewSource(j.Seed))
 	for it := 0; it < j.N; it++ {
 		k := r.Intn(7)
@@ -286,12 +428,13 @@ func init() {
 			}
 			for i := 0; i < n; i++ {
 				jobs = append(jobs, run.Job{Family: "filesets", Seed: seed*100000 + int64(i), N: per})
+				jobs = append(jobs, run.Job{Family: "custom-files", Seed: seed*100000 + 50000 + int64(i), N: per / 10})
 			}
 			return jobs
 		},
 		Exec: c11exec,
 		Finish: func(tier string, a *run.Acc, cov map[string]any) string {
-			cov["rule"] = "case = a file set of 0-6 files (each created from a caller buffer that is overwritten right after NewFile), one set in 90 of 15-300 files, one in 90 with a file of 300-70000 pieces (up to tens of thousands of lines, or lines thousands of columns long) (empty files, LF, lone CR, CRLF, CR CR LF, multi-byte runes, no trailing newline), built with NewFileSet(files...) or AddFile, a fifth of them from File objects that were placed in another set before. " +
+			cov["rule"] = "family custom-files: sets of 2-7 files that mix text.File with value-type File implementations of the user (equal values, non-comparable values), every global position compared with the same layout rule. case = a file set of 0-6 files (each created from a caller buffer that is overwritten right after NewFile), one set in 90 of 15-300 files, one in 90 with a file of 300-70000 pieces (up to tens of thousands of lines, or lines thousands of columns long) (empty files, LF, lone CR, CRLF, CR CR LF, multi-byte runes, no trailing newline), built with NewFileSet(files...) or AddFile, a fifth of them from File objects that were placed in another set before. " +
 				"Oracle: independent layout base_0=1, base_{i+1}=base_i+len_i+1 on the independently CRLF-normalised content, line/column by counting LFs. Every global position 0..last+3 is queried " +
 				"(name:line:col expected, 'unknown' for 0 and for everything past the last file's EOF position; every EOF position belongs to its file), all renderings of distinct (file, offset) must be distinct; " +
 				"File.Pos, File.Len, File.Position are checked directly for every offset, Reader.Pos (readers created before / after the file joined the set) at three offsets per file. non-trivial = at least two files; distinct = distinct file contents"
